@@ -370,7 +370,7 @@ func (x *genCtx) failLine() string {
 		}
 		return "grep word nofile.txt"
 	case 16:
-		return "exec nosuchprog-verif"
+		return pick(r, []string{"exec nosuchprog-verif", "exec &bgonly&", "! exec &bgonly&", "exec &", "! exec &", "exec"})
 	case 17:
 		return pick(r, []string{"exists 'unterminated", "'", "mkdir d1 'x"})
 	case 18:
